@@ -27,6 +27,12 @@ def monitor(meta, out, designated=None):
             if rel:
                 return ("the working directory was changed to '%s' before the designated path '%s' was examined: the identity is taken from the owner of another directory"
                         % (vlib.unhexs(l.split()[1]), rel[0]))
+    # "no configuration code is run ... while either the user id or the group id is still zero"
+    for l in lines:
+        if l.startswith("loadconfig "):
+            t = l.split()
+            if t[1] == "0" or t[2] == "0" or t[3] != "0":
+                return "the configuration was loaded (configuration code run) with user id %s, group id %s and %s supplementary groups: before the privileges were dropped" % (t[1], t[2], t[3])
     # "AFTER setting up monitoring the daemon switches ... to the non-root owner of the designated path": the owner that
     # counts is the one the path has once the marks (and the bind mounts they needed) are in place
     st_i = [i for i, l in enumerate(lines) if l.startswith("stat ")]
